@@ -330,6 +330,13 @@ def site_case(item):
     if field == "ext":
         ks = range(0, len(proof)) if tier == "thorough" else \
             (1, 2, len(proof) // 2, len(proof) - 1)
+        # control: at full length the rebuilt hello is the honest one, octet
+        # for octet (else the prefixes below are wrong for another reason)
+        if prefix_binder_hello(data, len(proof)) != bytes(data):
+            rec["fails"].append(("binder-prefix-control",
+                                 "the hello rebuilt around the recomputed "
+                                 "full-length binder differs from the honest "
+                                 "hello: prefix cases are vacuous"))
         for k in ks:
             nd = prefix_binder_hello(data, k)
             if nd is not None and nd != data:
